@@ -211,4 +211,6 @@ def cases(tier, seed):
         out.append(Case("minvar:from-data:%s:N=%d:m=%d:NFFT=%d" % ('cx' if cplx else 're', N, m, n), case_minvar_real,
                         dict(N=N, m=m, n=n, cplx=cplx), timeout=120 if q else 600, max_paths=8, feas_timeout=5,
                         wall=600 if q else 2400))
+    from .common import reuse_cases, Call
+    out += reuse_cases([("minvar(m=2,NFFT=4)", Call('minvar', 2, NFFT=4), 4, True), ("minvar(m=2,NFFT=5)", Call('minvar', 2, NFFT=5), 4, False)], q)
     return out
